@@ -157,6 +157,11 @@ def run(p: Program, rep: Report, tier: str) -> None:
             want = {"wsgi": ("HTTP_IF_NONE_MATCH", "HTTP_IF_MODIFIED_SINCE"), "asgi": (b"if-none-match", b"if-modified-since")}[side]
             unit = with_helpers(p, call, policy=_sf_inline)
             consts = [n.value for f_ in unit for n in ast.walk(f_.node) if isinstance(n, ast.Constant)]
+            # ... and in the module-level tables those functions read (header name -> field tables)
+            for f_ in unit:
+                for n in ast.walk(f_.node):
+                    if isinstance(n, ast.Name) and isinstance(n.ctx, ast.Load) and n.id in f_.module.constants:
+                        consts += [c_.value for c_ in ast.walk(f_.module.constants[n.id]) if isinstance(c_, ast.Constant)]
             if all(w in consts for w in want):
                 rep.ok("R14.1", f"{side} {cname}: reads If-None-Match and If-Modified-Since")
             else:
@@ -172,11 +177,15 @@ def run(p: Program, rep: Report, tier: str) -> None:
             for pos, what, key in ((2, "If-None-Match", want[0]), (3, "If-Modified-Since", want[1])):
                 seen_read = False
                 bad_arg = None
+                unknown_arg = None
                 for pa in cpaths:
                     for e in pa.events:
                         if not (e.kind == "call" and callee_is(e.a, "file_response")):
                             continue
                         n_frc += 1
+                        if any(x_[0] == "star" for x_ in e.b):
+                            unknown_arg = ", ".join(show(x_)[:40] for x_ in e.b if x_[0] == "star")  # *args of a value the engine could not expand
+                            continue
                         if len(e.b) <= pos:
                             bad_arg = (e, None)
                             continue
@@ -188,12 +197,16 @@ def run(p: Program, rep: Report, tier: str) -> None:
                             okr = okr or (a == ("const", "") and any(t is False and f[0] == "cmp" and f[1] == "In" and f[2] == ("const", key) and f[3] == gate for f, t in pa.facts))
                             if okr:
                                 seen_read = True
+                            elif a[0] != "const" and contains(a, gate) and (a[0] in ("unpack", "unpack*", "star", "top") or any(t[0] in ("star", "unpack*", "top") or (t[0] == "call" and any(k_ == "**" for k_, _v in t[3])) for t in subterms(a))):
+                                unknown_arg = show(a)[:60]  # computed from the request in a way the term language does not follow (**mapping, star)
                             else:
                                 bad_arg = (e, a)
                         else:
                             reads = any(t[0] == "elem" and contains(t, gate) for t in subterms(a))
                             if reads:
                                 seen_read = True
+                            elif a[0] != "const" and contains(a, gate) and any(t[0] in ("star", "unpack*", "top") or (t[0] == "call" and any(k_ == "**" for k_, _v in t[3])) for t in subterms(a)):
+                                unknown_arg = show(a)[:60]
                             elif a != ("const", ""):
                                 bad_arg = (e, a)
                 if bad_arg is not None:
@@ -203,6 +216,8 @@ def run(p: Program, rep: Report, tier: str) -> None:
                         rep.violation("R14.1", construct(call, text=f"file_response without the {what} value"), where(call, node), f"{side} {cname}: file_response is not given the {what} header value")
                     else:
                         rep.violation("R14.1", construct(call, text=f"{what} argument {show(a)[:50]}"), where(call, node), f"{side} {cname}: the {what} value handed to file_response is not the request header")
+                elif unknown_arg is not None:
+                    rep.undecide("R14.1", f"{side} {cname}: the {what} argument of file_response ({unknown_arg}) is derived from the request through a construct the analysis does not follow")
                 elif not seen_read and n_frc:
                     rep.violation("R14.1", construct(call, text=f"{what} never read"), where(call), f"{side} {cname}: the {what} value handed to file_response is never read from the request")
                 elif n_frc:
@@ -242,7 +257,7 @@ def run(p: Program, rep: Report, tier: str) -> None:
     # ---------------------------------------------------------------- R14.2 inside if_modified_since
     ims = base.methods.get("if_modified_since")
     rep.analysed(ims.fq)
-    paths, col, it = run_paths(p, ims, base, raises=lambda c, i, callee, node: ["ValueError"] if ("parsedate" in show(callee) or "timestamp" in show(callee)) else [])
+    paths, col, it = run_paths(p, ims, base, inline=_sf_inline, raises=lambda c, i, callee, node: ["ValueError"] if ("parsedate" in show(callee) or "timestamp" in show(callee)) else [])
     found_cmp = False
     for pa in paths:
         if pa.exit == "raise":
@@ -283,6 +298,8 @@ def run(p: Program, rep: Report, tier: str) -> None:
         if (v == ("const", True) or v == ("cmp", "Eq", HDR, ("const", "*"))) and ("cmp", "Eq", HDR, ("const", "*")) in pos:
             star = True  # `return True` under the test, or `return header == "*" or ...` on the path where the first operand holds
             continue
+        if v[0] == "or" and v[1] and v[1][0] == ("cmp", "Eq", HDR, ("const", "*")):
+            star = True  # `return header == "*" or <member test>`: the first operand short-circuits
         if v == ("const", False) and HDR in neg and len(pa.facts) == 1:
             empty = True
             continue
